@@ -2,8 +2,8 @@
  * models/aws_hash.h -- ghost state of the abstract SHA256_Buf / HMAC_SHA256_Buf used by the C19 proofs.
  *
  * G2 (lockstep trace abstraction, DESIGN 2.3): the two hash primitives are uninterpreted leaves.  The k-th
- * call (k = g_aws_n at the time of the call) records its kind, the key bytes and the message bytes in
- * g_aws_log[k] and returns 32 fresh nondeterministic bytes, also recorded.  Whatever the real functions are
+ * call (k = g_aws_n at the time of the call) records its kind, the key bytes and the message bytes (and the
+ * addresses they were read from) in g_aws_log[k] and returns 32 fresh nondeterministic bytes, also recorded.  Whatever the real functions are
  * (their conformance to FIPS 180-4 / RFC 2104 is C01's business), they are one of the behaviours of this model,
  * so a statement about the *trace* of calls ("the implementation hashed exactly these byte strings, in this
  * order, chaining these outputs") holds for the real functions.
@@ -19,15 +19,19 @@
 #ifndef AWS_MMAX
 #define AWS_MMAX 320		/* longest message that can be logged */
 #endif
-#define AWS_KMAX 32		/* longest key that can be logged ("AWS4" || secret, or a 32-byte MAC) */
+#ifndef AWS_KMAX
+#define AWS_KMAX 80		/* longest key that can be logged ("AWS4" || secret, or a 32-byte MAC) */
+#endif
 
 #define AWS_K_SHA256	1
 #define AWS_K_HMAC	2
 
 struct aws_hcall {
 	int kind;			/* AWS_K_SHA256 | AWS_K_HMAC */
-	size_t klen;			/* HMAC only */
+	const void * kptr;		/* HMAC only: where the key was read from (identity only) */
+	size_t klen;
 	uint8_t key[AWS_KMAX];
+	const void * mptr;		/* where the message was read from (identity only) */
 	size_t mlen;
 	uint8_t msg[AWS_MMAX];
 	uint8_t out[32];		/* the digest that was returned */
